@@ -56,6 +56,7 @@ class Run:
         self.solver_ms = 0.0
         self.hashes = {}
         self.global_writes = {}     # shipped back by worker processes
+        self.native_replays = 0     # replays of decoder refutations are capped per run (the rest is reported without a replayed input)
         os.makedirs(os.path.join(VERIF, 'replays', pid), exist_ok=True)
 
     # ---------------------------------------------------------------- recording
